@@ -19,7 +19,7 @@ ENV.setdefault("CARGO_TERM_COLOR", "never")
 
 # kinds of engine-S findings that are deterministic facts about a concrete path (no model needed)
 PATH_LEVEL = {"rejected", "panic", "varnames", "poison", "listing", "acceptance", "accepted-malformed",
-              "unparse", "clone-count", "arity", "derivative-error", "missing-error", "bookkeeping"}
+              "unparse", "clone-count", "arity", "derivative-error", "missing-error", "bookkeeping", "consuming", "reparse"}
 
 
 def log(msg):
@@ -79,9 +79,12 @@ PROPS = {
     "C02": [S("C02")],
     "C03": [S("C03")],
     "C04": [S("C04")],
+    "C05": [S("C05")],
     "C06": [S("C06")],
     "C07": [S("C07")],
     "C08": [S("C08")],
+    "C09": [S("C09")],
+    "C10": [S("C10")],
     "C11": [S("C11")],
     "C12": [S("C12")],
     "C15": [S("C15")],
